@@ -291,6 +291,7 @@ def _insitu(ctx, mon, shard):
             "dotColor": palette,
             "linkColor": lambda d: "#A0b1C2",
             "showBorder": bool(k % 2),
+            "borderColor": ["#%03X" % rng.randrange(4096) for _ in range(3)] + ["#0a0b0c", "A1B2C3"],
             "labella": {"maxPos": 39000, "algorithm": "simple"},
         }
         case = {"n": n, "palette": palette, "direction": opts["direction"]}
@@ -304,8 +305,10 @@ def _insitu(ctx, mon, shard):
             ctx.judge("insitu-tikz", INCONCLUSIVE, case, reason="export raised %s (C11's concern)" % type(e).__name__)
             continue
         kinds = {}
+        values = {}
         for m in _DEFCOL.finditer(doc):
             kinds.setdefault(m.group(1), []).append(m.group(2))
+            values.setdefault(m.group(1), []).append(N.parse_html(m.group(3)))
         texts = _DEFTXT.findall(doc)
         problems = []
         need = ["dotColor", "labelBgColor", "labelTextColor", "linkColor"] + (["borderColor"] if opts["showBorder"] else [])
@@ -315,6 +318,13 @@ def _insitu(ctx, mon, shard):
                 problems.append({"kind": kd, "count": len(nm), "distinct": len(set(nm))})
         if len(texts) != n or len(set(texts)) != n:
             problems.append({"kind": "text", "count": len(texts), "distinct": len(set(texts))})
+        # colours given as a list are dealt out label by label: the TeX colours defined for the n labels are that multiset
+        for kd, lst in (("dotColor", palette), ("borderColor", opts["borderColor"] if opts["showBorder"] else None)):
+            if lst and len(values.get(kd, [])) == n:
+                want = sorted(N.ref_rgb(lst[i % len(lst)]) for i in range(n))
+                got = sorted(v if v is not None else (-1, -1, -1) for v in values[kd])
+                if got != want:
+                    problems.append({"kind": kd, "rule": "TeX colours of the labels are not the listed colours dealt out in turn", "distinct_defined": len(set(got)), "distinct_expected": len(set(want))})
         if mon.n_violations > before:
             problems.append({"monitor": mon.violations[-3:]})
         if problems:
